@@ -87,6 +87,9 @@ def cmd_check(pid, args):
         if h.get("tb"):
             print(h["tb"])
         exit_code = 2
+    if args.runs and not os.environ.get("VERIF_OUT"):
+        # ad-hoc run sizes never overwrite the evidence of the registered commands
+        core.OUT_DIR = os.path.join(core.VERIF_DIR, ".work")
     core.write_evidence(pid, tier, verif_seed, cov, time.time() - t0, len(new_viol), getattr(mod, "ASSUMPTIONS", []))
     sc = cov["runs_by_status"]
     print("runs=%d %s distinct_nontrivial=%d wall=%.1fs (%d runs/h)%s" % (len(results), sc, cov["distinct_nontrivial"], wall,
